@@ -140,6 +140,11 @@ fn k_of_qname(q: &Option<String>) -> Option<usize> {
     num.parse().ok()
 }
 
+thread_local! {
+    /// The retry count the datagram configuration is asked for (it caps it).
+    static DG_RETRIES_ASKED: std::cell::Cell<u8> = const { std::cell::Cell::new(0) };
+}
+
 #[derive(Clone, Copy, Debug)]
 struct Knobs {
     kind: Kind,
@@ -968,6 +973,102 @@ async fn long_haul(multi: bool) {
 /// The caller lets go of its last handle to the connection while its request
 /// is outstanding: the request object alone keeps the exchange alive and
 /// gets the answer the peer sends afterwards.
+/// A healthy connection stays served while the multiplexed transport is busy
+/// opening another one: request B waits for its answer (the peer takes its
+/// time, well inside the response timeout); request A, made meanwhile, cannot
+/// be framed (more than 65535 octets) and fails all by itself, after which the
+/// transport goes for a new connection - and that connect is slow. B's answer
+/// arrives while the connect is pending and has to reach B then, not when
+/// the connect is through.
+async fn slow_reconnect() {
+    sim::stat("probe.answer_arrives_while_another_connection_is_being_opened");
+    let answer_after_ms = 1000 + sim::draw("slow_reconnect.answer_after_ms", 4000);
+    let a_after_ms = 1 + sim::draw("slow_reconnect.unframeable_request_after_ms", 500);
+    ev!("slow reconnect: B answered after {} ms, unframeable A made after {} ms, later connects take a minute", answer_after_ms, a_after_ms);
+    let listener = net::listener("slowrc");
+    let local = tokio::task::LocalSet::new();
+    local
+        .run_until(async move {
+            let l2 = listener.clone();
+            tokio::task::spawn_local(async move {
+                while let Some(acc) = l2.accept().await {
+                    tokio::task::spawn_local(async move {
+                        let mut stream = acc.stream;
+                        let mut inbuf: Vec<u8> = Vec::new();
+                        let mut tmp = [0u8; 4096];
+                        loop {
+                            let n = match stream.read(&mut tmp).await {
+                                Ok(0) | Err(_) => return,
+                                Ok(n) => n,
+                            };
+                            inbuf.extend_from_slice(&tmp[..n]);
+                            while inbuf.len() >= 2 {
+                                let len = u16::from_be_bytes([inbuf[0], inbuf[1]]) as usize;
+                                if inbuf.len() < 2 + len {
+                                    break;
+                                }
+                                let body: Vec<u8> = inbuf[2..2 + len].to_vec();
+                                inbuf.drain(..2 + len);
+                                let k = dns::parse(&body).and_then(|p| k_of_qname(&p.qname)).unwrap_or(usize::MAX);
+                                if k == 0 {
+                                    tokio::time::sleep(Duration::from_millis(answer_after_ms)).await;
+                                }
+                                let reply = dns::mk_reply(&body, 0x0100_0000 + k as u32, false, Rcode::NOERROR).expect("reply");
+                                if stream.write_all(&dns::frame(&reply)).await.is_err() {
+                                    return;
+                                }
+                            }
+                        }
+                    });
+                }
+            });
+            let planner: Arc<dyn Fn(usize) -> ConnectPlan + Send + Sync> = Arc::new(|i| ConnectPlan { delay_ms: if i == 0 { 0 } else { 60_000 }, ..ConnectPlan::default() });
+            let connector = listener.connector(addr(1, 41_500), planner);
+            let mut st_cfg = stream::Config::new();
+            st_cfg.set_response_timeout(Duration::from_secs(8));
+            let (c, t) = multi_stream::Connection::with_config(connector, multi_stream::Config::from(st_cfg));
+            tokio::spawn(t.run());
+            let conn: Rc<dyn SendRequest<RequestMessage<Vec<u8>>>> = Rc::new(c);
+            let t0 = tokio::time::Instant::now();
+            let mut b = conn.send_request(RequestMessage::new(dns::mk_query("r0.sim.", Rtype::A, true)).expect("request"));
+            let conn2 = conn.clone();
+            let a = tokio::task::spawn_local(async move {
+                tokio::time::sleep(Duration::from_millis(a_after_ms)).await;
+                let mut ab = domain::base::MessageBuilder::new_vec().question();
+                ab.push((dns::name("r1.sim."), Rtype::A)).unwrap();
+                let mut ab = ab.additional();
+                for i in 0..3u8 {
+                    let data = vec![b'x'; 22_000];
+                    ab.push((dns::name(&format!("pad{}.sim.", i)), domain::base::iana::Class::IN, domain::base::Ttl::from_secs(1), domain::rdata::Txt::<Vec<u8>>::build_from_slice(&data).unwrap())).unwrap();
+                }
+                let r = conn2.send_request(RequestMessage::new(ab.into_message()).expect("request")).get_response().await;
+                ev!("slow reconnect: the unframeable request ended with {:?}", r.as_ref().map(|_| "an answer").map_err(|e| format!("{:?}", e)));
+                r.is_ok()
+            });
+            let res = b.get_response().await;
+            let took_ms = t0.elapsed().as_millis() as u64;
+            sim::sync_clock();
+            let ok = match &res {
+                Ok(m) => dns::parse(m.as_slice()).is_some_and(|p| p.qr && k_of_qname(&p.qname) == Some(0) && p.tokens == vec![0x0100_0000]),
+                Err(_) => false,
+            };
+            ev!("slow reconnect: B ended after {} ms, ok={}", took_ms, ok);
+            if !ok || took_ms > answer_after_ms + 200 {
+                sim::violation(
+                    P,
+                    "completion",
+                    "answer-on-a-healthy-connection-held-back-while-another-connection-is-being-opened/Multi".to_string(),
+                    format!("request B on a healthy connection was answered by its peer after {} ms (response timeout 8 s); meanwhile a request that cannot be framed failed and the transport went for a new connection (a connect that takes a minute): B ended after {} ms with {}", answer_after_ms, took_ms, match &res { Ok(_) if ok => "its answer".to_string(), Ok(_) => "an answer that is not its own".to_string(), Err(e) => format!("{:?}", e) }),
+                );
+                return;
+            }
+            if let Ok(true) = a.await {
+                sim::violation(P, "completion", "unframeable-request-answered".to_string(), "a request of more than 65535 octets was answered over a stream".to_string());
+            }
+        })
+        .await;
+}
+
 async fn last_handle_dropped() {
     sim::stat("probe.last_connection_handle_dropped_with_a_request_outstanding");
     let listener = net::listener("lone");
@@ -1032,6 +1133,7 @@ async fn run(_tier: Tier) {
         0 => return long_haul(false).await,
         1 => return long_haul(true).await,
         2..=120 => return last_handle_dropped().await,
+        121..=240 => return slow_reconnect().await,
         _ => {}
     }
     let kinds = [Kind::Dgram, Kind::Stream, Kind::Multi, Kind::DgramStream, Kind::Redundant, Kind::LoadBalancer];
@@ -1041,7 +1143,16 @@ async fn run(_tier: Tier) {
         kind,
         faulty,
         dg_read_timeout_ms: *sim::pick("cfg.dg_read_timeout", &[1000, 200, 5000]),
-        dg_retries: sim::draw("cfg.dg_retries", 3) as u8,
+        // (What the configuration takes: "if this value is too small or too
+        // large, it will be capped" - at 100.)
+        dg_retries: {
+            let asked = if sim::chance("cfg.dg_retries_huge", 1, 12) { *sim::pick("cfg.dg_retries_which", &[255u8, 100, 101]) } else { sim::draw("cfg.dg_retries", 3) as u8 };
+            DG_RETRIES_ASKED.with(|c| c.set(asked));
+            if asked > 100 {
+                sim::stat("probe.dgram_retries_asked_beyond_the_cap");
+            }
+            asked.min(100)
+        },
         st_response_timeout_ms: *sim::pick("cfg.st_response_timeout", &[2000, 500, 19000]),
         st_idle_timeout_ms: *sim::pick("cfg.st_idle_timeout", &[10_000, 1000, 0]),
         ms_response_timeout_ms: *sim::pick("cfg.ms_response_timeout", &[30_000, 5000]),
@@ -1118,7 +1229,7 @@ async fn run(_tier: Tier) {
     // Configurations.
     let mut dg_cfg = dgram::Config::new();
     dg_cfg.set_read_timeout(Duration::from_millis(kn.dg_read_timeout_ms));
-    dg_cfg.set_max_retries(kn.dg_retries);
+    dg_cfg.set_max_retries(DG_RETRIES_ASKED.with(|c| c.get()));
     dg_cfg.set_max_parallel(kn.dg_max_parallel);
     dg_cfg.set_recv_size(kn.dg_recv_size);
     // (Requests then go out with an OPT record announcing this size.)
